@@ -306,7 +306,7 @@ def sibling_lookups(res, ctx, rng, arities):
                     res.count('sibling_lookup_windows')
 
 
-EDGE_CHARS = [chr(c) for c in range(0x20, 0x7f) if chr(c) != '"'] + ['\u00e9', '\u65e5']
+EDGE_CHARS = [chr(c) for c in range(0x20, 0x7f) if chr(c) != '"'] + ['\u00e9', '\u65e5', '\t', '\x7f', '\x01', '\u00a0', '\u200b', '\ufeff']
 
 
 def edge_characters(res, ctx, rng, arities):
